@@ -517,10 +517,12 @@ impl<Octs: Octets> UpdateMessage<Octs> {
             && self.announcements.is_empty()
             && !self.has_mp_nlri()?
         {
-            if let Ok(Some(mut iter)) = self.mp_withdrawals() {
-                let res = iter.afi_safi();
-                if iter.next().is_none() {
-                    return Ok(Some(res))
+            // Look at the octets, not at what the iterator yields: for an
+            // address family we do not support it never yields anything,
+            // but withdrawn routes of such a family are no End-of-RIB.
+            if let Ok(Some(iter)) = self.mp_withdrawals() {
+                if iter.is_empty() {
+                    return Ok(Some(iter.afi_safi()))
                 }
             }
         }
